@@ -93,7 +93,13 @@ def run(ctx):
                 all(hb.crate == AG and not hb.locals[1]["ty"].startswith("&") and is_self_accessor(hb) for hb in local_callee_bodies(F, cs))
         part_consumer = lambda cs, i: cs is None or cs.name in CONSUMERS + ("into_iter", "extend") or \
             any(sb.crate == AG and any(x.name in ("into_iter", "next", "for_each") for x in sb.calls()) for sb in local_callee_bodies(F, cs))
-        lin = check_linear(ctx, "R10.7", b, 2, lambda cs, i: is_consumer(cs, i) or _accessor(cs), what="value")
+        # the value lent to a method of the accumulator that replays it into the strategy (`accum.record_ref(&value)`) is handed on there
+        def _lend(cs, i, b=b):
+            if not cs.args or i == 0 or not any(x[0] == "arg" and x[1] == 1 for x in Prov(b).operand(cs.args[0])):
+                return False
+            feeds = lambda c_: c_.name in CONSUMERS or (c_.name in ("record", "record_many") and "AggregationStrategy" in (c_.trait or "")) or c_.is_trait_method("Value", "write")
+            return cs.name in CONSUMERS or any(hb.crate == AG and reaches_call(F, hb, feeds, depth=3) for hb in local_callee_bodies(F, cs))
+        lin = check_linear(ctx, "R10.7", b, 2, lambda cs, i: is_consumer(cs, i) or _accessor(cs), what="value", lend=_lend)
         if lin is not None:
             for bb_, (t_, i_) in lin.consumers.items():
                 cs_ = CallSite(b, bb_, t_)
@@ -152,6 +158,11 @@ def run(ctx):
                     for hb in local_callee_bodies(F, c):
                         if hb.crate == AG:
                             sites += [x for x in hb.calls() if x.name in names]
+        if not sites and any(n_ in ("add_value", "record", "record_many") for n_ in names):
+            # ... or a method of the accumulator that replays the value into the aggregation strategy (what `add_value` is), under another name
+            rec_ = lambda c_: (c_.name in ("record", "record_many") and "AggregationStrategy" in (c_.trait or "")) or c_.is_trait_method("Value", "write")
+            sites += [c for c in b.calls() if c.args and any(x[0] == "arg" and x[1] == 1 for x in pr.operand(c.args[0])) and
+                      any(hb.crate == AG and hb.kind != "Closure" and reaches_call(F, hb, rec_, depth=4) for hb in local_callee_bodies(F, c))]
         others = [c for c in b.calls() if c.name in ("sub_assign", "mul_assign", "clone_from", "clear", "take", "replace") and c.args and
                   any(x[0] == "arg" and x[1] == 1 for x in pr.operand(c.args[0]))]
         plain_store = [i for i in b.live_blocks() for s_ in b.stmts(i) if s_["k"] == "assign" and s_["lhs"]["l"] == 1 and [e[0] for e in s_["lhs"].get("p", [])] == ["deref"]]
